@@ -1,11 +1,13 @@
 #!/bin/bash
 # usage: run_seeded.sh <seeded-id> <check-id> [tier]  -- runs a check against a scratch copy of /repo with the
 # seeded change applied (the copy lives under /var/tmp and is removed afterwards; /repo is untouched).
+# <seeded-id> is a directory name under seeded/ or, if it contains a slash, a directory holding patch.diff.
 SID=$1; CID=$2; TIER=${3:-quick}
 V=$(cd "$(dirname "$0")/.." && pwd)
+case "$SID" in */*) PD="$SID"; SID=$(basename "$SID");; *) PD="$V/seeded/$SID";; esac
 S=/var/tmp/seeded-$SID-$$
 rsync -a --exclude .git /repo/ "$S/" || exit 2
 trap 'rm -rf "$S"' EXIT
-( cd "$S" && patch -p1 -s < "$V/seeded/$SID/patch.diff" ) || { echo "ERROR patch does not apply"; exit 2; }
+( cd "$S" && patch -p1 -s < "$PD/patch.diff" ) || { echo "ERROR patch does not apply"; exit 2; }
 CMD=$(python3 -c "import json,sys;m=json.load(open('$V/MANIFEST.json'));c=[c for c in m['checks'] if c['property_id']=='$CID'][0];print(c['quick_cmd'] if '$TIER'=='quick' else c['thorough_cmd'])")
 (cd "$V" && VERIF_REPO="$S" VERIF_OUT="$S/.verif-out" $CMD) 2>&1 | grep -E "^(VIOLATION|SUMMARY|ERROR|KNOWN)" | cut -c1-400 | head -${LINES_MAX:-8}
